@@ -4,8 +4,8 @@
     [tk_step true max s t] for every thread [t], i.e. under EVERY schedule, for ANY number of
     threads and ANY queues.  Tie to the code: real OS threads through the cfg(callbag_verif)
     hooks under the token-passing scheduler, compared event by event with this model. *)
-From CB Require Import Threads ThreadSpec ThreadsFine ThreadsTakeMerge Inv_threads_take Inv_threads_takemerge
-  Inv_threads_take_fine.
+From CB Require Import Threads ThreadSpec ThreadsFine ThreadsTakeMerge ThreadsTakeCombine Inv_threads_take
+  Inv_threads_takemerge Inv_threads_take_fine Inv_threads_takecombine.
 
 Theorem C19_safe max qs s :
   tk_reach max qs s ->
@@ -114,3 +114,41 @@ Theorem C19_fine_driver_run max qs n sch fuel :
   take_check max (rev (tks_tr s)) = [].
 Proof. exact (@take_fine_driver_run max qs n sch fuel). Qed.
 Print Assumptions C19_fine_driver_run.
+
+(** ** take(max) behind combine! of n member threads (ThreadsTakeCombine.v; the README's
+    [pipe!(combine!(interval, interval), ..., take(n), ...)] shape), every schedule, any endings *)
+
+Theorem C19_takecombine_safe max n qs fins s : 1 <= n -> xc_reach max n qs fins s ->
+  count is_begin_data (xcs_tr s) <= max
+  /\ count is_begin_term (xcs_tr s) <= 1
+  /\ (forall j, count (is_up_term_of j) (xcs_tr s) <= 1)
+  /\ xcs_panicked s = false /\ existsb is_panic (xcs_tr s) = false.
+Proof. exact (@takecombine_safe max n qs fins s). Qed.
+Print Assumptions C19_takecombine_safe.
+
+(** only complete tuples made of values actually sent reach the sink *)
+Theorem C19_takecombine_tuples max n qs fins s : 1 <= n -> xc_reach max n qs fins s ->
+  forall t x, In (t, TBegin (DD x)) (xcs_tr s) ->
+  exists l, x = VT l /\ length l = n /\ tuple_ok qs 0 l = true.
+Proof. exact (@takecombine_tuples max n qs fins s). Qed.
+Print Assumptions C19_takecombine_tuples.
+
+Theorem C19_takecombine_complete max n qs fins s : 1 <= n -> 1 <= max -> xc_reach max n qs fins s ->
+  (forall t, t < n -> xc_finished s t = true) ->
+  max <= count is_begin_data (xcs_tr s) -> count is_begin_term (xcs_tr s) = 1.
+Proof. exact (@takecombine_complete max n qs fins s). Qed.
+Print Assumptions C19_takecombine_complete.
+
+(** take ended its upstream: combine's sink talkback told EVERY member to stop, exactly once *)
+Theorem C19_takecombine_members_stopped max n qs fins s : 1 <= n -> 1 <= max -> xc_reach max n qs fins s ->
+  (forall t, t < n -> xc_finished s t = true) -> max <= count is_begin_data (xcs_tr s) ->
+  forall j, j < n -> count (is_up_term_of j) (xcs_tr s) = 1.
+Proof. exact (@takecombine_members_stopped max n qs fins s). Qed.
+Print Assumptions C19_takecombine_members_stopped.
+
+Theorem C19_takecombine_driver_run max n qs fins nth sch fuel : 1 <= n -> 1 <= max ->
+  let s := run_full (xc_step true max n) xc_finished nth sch fuel (xc_init n qs fins) in
+  xcs_panicked s = false /\
+  ((forall t, t < n -> xc_finished s t = true) -> takecombine_check max n qs (rev (xcs_tr s)) = []).
+Proof. exact (@takecombine_driver_final max n qs fins nth sch fuel). Qed.
+Print Assumptions C19_takecombine_driver_run.
